@@ -4,9 +4,10 @@ Translated (regenerated on every run):
   * the guard of the unchecked fast path of BaseColumn._setslicekey      -> k_setslice_fast
   * the scalar-broadcast test of BaseColumn._tosequence                    -> k_base_toseq_scalar
   * the dispatch chain of NumericColumn._tosequence (four exits)          -> k_numeric_toseq_branch
+  * the by-reference (alias) test of DataMatrix._set_col for a column value -> k_setcol_by_reference
 Pinned (compared by AST with the expected source; generation is refused if they changed):
   * the statements around those tests, IntColumn._tosequence, IntColumn._setslicekey, BaseColumn._setintkey,
-    BaseColumn._setsequencekey, both _setdatamatrixkey, the column branch of DataMatrix._set_col;
+    BaseColumn._setsequencekey, both _setdatamatrixkey, the exits of the column branch of DataMatrix._set_col;
   * every assignment to `_typechecking` in datamatrix/_datamatrix/*.py (True in BaseColumn.__init__, False twice in
     DataMatrix.__lshift__, True in the loop that ends __lshift__), and __lshift__ has no exit before that loop.
 """
@@ -228,11 +229,24 @@ self[orig_indices[matching_indices]] = val
     cols = [s for s in body if isinstance(s, ast.If) and ast.unparse(s.test) == 'isinstance(value, BaseColumn)']
     if len(cols) != 1:
         raise TranslationError('DataMatrix._set_col: column branch')
-    pin_body(cols[0].body, [
-        'if value._datamatrix is self and len(value) == len(self) and '
-        'all((i == j for i, j in zip(value._rowid, self._rowid))):\n    self._cols[name] = value\n    return',
+    cb = cols[0].body
+    if len(cb) != 3 or not isinstance(cb[0], ast.If) or cb[0].orelse:
+        raise TranslationError('DataMatrix._set_col: shape of the column branch')
+    # the by-reference (deliberate alias) test is translated; what the two exits do is pinned
+    pin_body(cb[0].body, ['self._cols[name] = value', 'return'], 'DataMatrix._set_col by-reference exit')
+    pin_body(cb[1:], [
         "if len(value) != len(self):\n    raise ValueError(u'Column should have the same length as the DataMatrix')",
-        'self._cols[name] = value._empty_col(datamatrix=self)'], 'DataMatrix._set_col column branch')
+        'self._cols[name] = value._empty_col(datamatrix=self)'], 'DataMatrix._set_col copying exit')
+    cx = Ctx({}, {'value._datamatrix is self': ('same_owner', 'bool'),
+                  'any((value is col for col in self._cols.values()))': ('is_own_column', 'bool'),
+                  'len(value) == len(self)': ('same_len', 'bool'),
+                  'all((i == j for i, j in zip(value._rowid, self._rowid)))': ('same_ids', 'bool')}, {})
+    t, k = expr(cb[0].test, cx)
+    if k != 'bool':
+        raise TranslationError('DataMatrix._set_col: by-reference test of kind %s' % k)
+    out.append('(* DataMatrix._set_col, value a column object: true = inserted by reference under the new name (alias),\n'
+               '   false = a fresh column of the value\'s type is created and filled by [:] = value (type-checked) *)\n'
+               'Definition k_setcol_by_reference (same_owner is_own_column same_len same_ids : bool) : bool :=\n  %s.\n\n' % t)
     i = body.index(cols[0])
     pin_body(body[i + 1:], [
         "if not isinstance(name, str):\n    raise TypeError(u'Column names should be str, not %s' % type(name))",
